@@ -1,11 +1,11 @@
 /-
-  Property C17 (multilinear PST) — out-of-domain requests.  `setup` with zero variables, `trim`
-  beyond the parameters, `open` of a polynomial whose number of variables differs from the key's,
-  `open` / `check` with too short a point and `check` with a proof list of the wrong length abort;
-  in-domain requests are answered.  Two request kinds are NOT refused by the code, and the model says
-  so: `commit` never looks at the polynomial's number of variables, and `check` / `open` never look
-  at surplus point coordinates (theorems `mlpc_commit_answers_any_nv`,
-  `mlpc_check_ignores_surplus_point`; the harness reports them as expectation failures).
+  Property C17 (multilinear PST) — out-of-domain requests are refused: `setup` with zero variables,
+  `trim` beyond the parameters, `commit` / `open` of a polynomial whose number of variables differs
+  from the key's, `open` / `check` at a point with a number of coordinates other than the number of
+  variables, `check` with a proof list of the wrong length all abort; in-domain requests are answered.
+  (On the tree before the fix "multilinear_pc commit/open/check refuse a polynomial or point of the
+  wrong number of variables" `commit` truncated silently and surplus point coordinates were never
+  read — finding D14; the harness keeps those request kinds as must-refuse cases.)
 -/
 import PCV.Proofs.MLPCProps
 import PCV.Props.Examples
@@ -27,24 +27,51 @@ theorem mlpc_setup_ok (nv : Nat) (g h : F) (t : List F) (hnv : nv ≠ 0) (ht : t
 theorem mlpc_trim_refused (pp : MLPC.UParams F) (s : Nat) (hs : pp.numVars < s) :
     MLPC.trim pp s = .error .abort := MLPC.trim_refuses pp s hs
 
+/-- `commit` of a polynomial with more (or fewer) variables than the key aborts — never a commitment -/
+theorem mlpc_commit_refuses_wrong_nv (ck : MLPC.CK F) (nv : Nat) (evals : List F) (h : nv ≠ ck.nv) :
+    MLPC.commit ck nv evals = .error .abort := MLPC.commit_wrong_nv ck nv evals h
+
 /-- `open` of a polynomial with more (or fewer) variables than the key aborts -/
-theorem mlpc_open_wrong_nv_refused (ck : MLPC.CK F) (nv : Nat) (evals z : List F) (h : nv ≠ ck.nv) :
+theorem mlpc_open_refuses_wrong_nv (ck : MLPC.CK F) (nv : Nat) (evals z : List F) (h : nv ≠ ck.nv) :
     MLPC.open ck nv evals z = .error .abort := MLPC.open_wrong_nv ck nv evals z h
 
-/-- `open` at a point with fewer coordinates than variables aborts -/
-theorem mlpc_open_short_point_refused (ck : MLPC.CK F) (nv : Nat) (evals z : List F)
-    (h : z.length < nv) : MLPC.open ck nv evals z = .error .abort :=
-  MLPC.open_short_point ck nv evals z h
+/-- `open` at a point with too few or too many coordinates aborts -/
+theorem mlpc_open_refuses_wrong_point_len (ck : MLPC.CK F) (nv : Nat) (evals z : List F)
+    (h : z.length ≠ nv) : MLPC.open ck nv evals z = .error .abort :=
+  MLPC.open_wrong_point_len ck nv evals z h
 
-/-- `check` at a point with fewer coordinates than the key has variables aborts -/
-theorem mlpc_check_short_point_refused (vk : MLPC.VK F) (c : MLPC.Commitment F) (z : List F) (v : F)
-    (πs : List F) (h : z.length < vk.nv) : MLPC.check vk c z v πs = .error .abort :=
-  MLPC.check_short_point vk c z v πs h
+/-- `check` at a point with too few or too many coordinates aborts — never a decision -/
+theorem mlpc_check_refuses_wrong_point_len (vk : MLPC.VK F) (c : MLPC.Commitment F) (z : List F)
+    (v : F) (πs : List F) (h : z.length ≠ vk.nv) : MLPC.check vk c z v πs = .error .abort :=
+  MLPC.check_wrong_point_len vk c z v πs h
 
 /-- `check` with a proof list of the wrong length aborts -/
-theorem mlpc_check_proof_length_refused (vk : MLPC.VK F) (c : MLPC.Commitment F) (z : List F) (v : F)
-    (πs : List F) (h : πs.length ≠ vk.nv) : MLPC.check vk c z v πs = .error .abort :=
+theorem mlpc_check_refuses_wrong_proof_len (vk : MLPC.VK F) (c : MLPC.Commitment F) (z : List F)
+    (v : F) (πs : List F) (h : πs.length ≠ vk.nv) : MLPC.check vk c z v πs = .error .abort :=
   MLPC.check_proof_length vk c z v πs h
+
+/-- whatever `commit` answers is tagged with the key's number of variables (no oversized polynomial
+slips through as a commitment of its restriction) -/
+theorem mlpc_commit_ok_nv (ck : MLPC.CK F) (nv : Nat) (evals : List F) (c : MLPC.Commitment F)
+    (h : MLPC.commit ck nv evals = .ok c) : nv = ck.nv ∧ c.nv = ck.nv := by
+  by_cases hn : nv = ck.nv
+  · unfold MLPC.commit at h
+    rw [if_neg (by simpa using hn)] at h
+    split at h
+    · cases h
+    · cases h; exact ⟨hn, hn⟩
+  · rw [MLPC.commit_wrong_nv ck nv evals hn] at h; cases h
+
+/-- a positive verification result implies a well-shaped request: exactly `nv` point coordinates and
+exactly `nv` proof elements -/
+theorem mlpc_accept_shape (vk : MLPC.VK F) (c : MLPC.Commitment F) (z : List F) (v : F)
+    (πs : List F) (b : Bool) (h : MLPC.check vk c z v πs = .ok b) :
+    z.length = vk.nv ∧ πs.length = vk.nv := by
+  constructor
+  · by_contra hne
+    rw [MLPC.check_wrong_point_len vk c z v πs hne] at h; cases h
+  · by_contra hne
+    rw [MLPC.check_proof_length vk c z v πs hne] at h; cases h
 
 /-- in-domain requests never abort: `1 ≤ s ≤ nv`, `2^s` evaluations, `s` point coordinates -/
 theorem mlpc_in_domain_ok (nv s : Nat) (g h : F) (t evals z : List F)
@@ -55,38 +82,19 @@ theorem mlpc_in_domain_ok (nv s : Nat) (g h : F) (t evals z : List F)
   obtain ⟨h1, h2, h3, h4, h5⟩ := MLPC.honest_run nv s g h t evals z ht hs1 hs he hz
   exact ⟨_, _, _, _, _, _, h1, h2, h3, h4, h5⟩
 
-/-- **What the code does with a polynomial of the wrong size in `commit`** (not a refusal): any key
-with at least one table answers, for any `nv` and any evaluation vector; the MSM reads only the first
-`|powers_of_g[0]|` evaluations.  For a polynomial with more variables than the key this is the
-commitment of its restriction to `x_{nv..} = 0`, tagged with the larger `nv`. -/
-theorem mlpc_commit_answers_any_nv (ck : MLPC.CK F) (p0 : List F) (rest : List (List F)) (nv : Nat)
-    (evals : List F) (hk : ck.powersOfG = p0 :: rest) :
-    MLPC.commit ck nv evals = .ok ⟨nv, dot p0 (evals.take p0.length)⟩ := by
-  unfold MLPC.commit; rw [hk]; simp only; rw [MLPC.dot_take_right]
-
-/-- **What the code does with surplus point coordinates** (not a refusal): `check` decides as for
-the first `nv` coordinates, `open` proves for them. -/
-theorem mlpc_check_ignores_surplus_point (vk : MLPC.VK F) (c : MLPC.Commitment F) (z extra : List F)
-    (v : F) (πs : List F) (h : vk.nv ≤ z.length) :
-    MLPC.check vk c (z ++ extra) v πs = MLPC.check vk c z v πs :=
-  MLPC.check_surplus_point vk c z extra v πs h
-
-theorem mlpc_open_ignores_surplus_point (ck : MLPC.CK F) (nv : Nat) (evals z extra : List F)
-    (h : nv ≤ z.length) : MLPC.open ck nv evals (z ++ extra) = MLPC.open ck nv evals z := by
-  unfold MLPC.open
-  split
-  · rfl
-  · split
-    · rfl
-    · exact MLPC.openLoop_surplus nv _ evals z extra h
-
-/-- non-vacuity: each refused request kind and the two answered ones, on the 2-variable key -/
+/-- non-vacuity: each refused request kind on the 2-variable key of trapdoor `[7, 20]` -/
 example : MLPC.setup 0 (5 : K) 11 [] = .error .abort := by decide
+example : MLPC.commit (MLPC.wfCK (5 : K) 11 [7, 20]) 3 [1, 2, 3, 50, 0, 0, 0, 1] = .error .abort := by
+  decide
+example : MLPC.commit (MLPC.wfCK (5 : K) 11 [7, 20]) 1 [1, 2] = .error .abort := by decide
 example : MLPC.open (MLPC.wfCK (5 : K) 11 [7, 20]) 3 [1, 2, 3, 50, 0, 0, 0, 1] [8, 13, 1] = .error .abort := by
   decide
 example : MLPC.open (MLPC.wfCK (5 : K) 11 [7, 20]) 2 [1, 2, 3, 50] [8] = .error .abort := by decide
+example : MLPC.open (MLPC.wfCK (5 : K) 11 [7, 20]) 2 [1, 2, 3, 50] [8, 13, 99] = .error .abort := by decide
 example : MLPC.check (MLPC.wfVK (5 : K) 11 [7, 20]) ⟨2, 19⟩ [8] 72 [31, 30] = .error .abort := by decide
-example : MLPC.commit (MLPC.wfCK (5 : K) 11 [7, 20]) 3 [1, 2, 3, 50, 0, 0, 0, 1] = .ok ⟨3, 19⟩ := by decide
-example : MLPC.check (MLPC.wfVK (5 : K) 11 [7, 20]) ⟨2, 19⟩ [8, 13, 99] 72 [31, 30] = .ok true := by decide
+example : MLPC.check (MLPC.wfVK (5 : K) 11 [7, 20]) ⟨2, 19⟩ [8, 13, 99] 72 [31, 30] = .error .abort := by
+  decide
+example : MLPC.check (MLPC.wfVK (5 : K) 11 [7, 20]) ⟨2, 19⟩ [8, 13] 72 [31] = .error .abort := by decide
+example : MLPC.trim (MLPC.wfParams (5 : K) 11 [7, 20]) 3 = .error .abort := by decide
 
 end PCV.C17
